@@ -37,8 +37,8 @@ theorem ancIter_mono {t : Ref → Bool} {s : Bool} (f : Nat) (n : Ref) (first : 
   · rename_i hc; rw [if_pos hc]; exact h
   · rename_i hc; rw [if_neg hc]; exact ancUp_mono d f n r h hne
 
-theorem ancLoop_mono {t : Ref → Bool} {key : Ref → UInt64} {s : Bool} : ∀ (f : Nat) (n : Ref) (first : Bool)
-    (tb : List UInt64) (r : Res (Ref × List UInt64)),
+theorem ancLoop_mono {t : Ref → Bool} {key : Ref → String} {s : Bool} : ∀ (f : Nat) (n : Ref) (first : Bool)
+    (tb : List String) (r : Res (Ref × List String)),
     ancLoop d t key s f n first tb = r → r ≠ .fuel → ancLoop d t key s (f+1) n first tb = r
   | 0, _, _, _, r, h, hne => by simp only [ancLoop] at h; exact absurd h.symm hne
   | f+1, n, first, tb, r, h, hne => by
@@ -232,8 +232,8 @@ theorem collectM_mono : ∀ (f : Nat) (q : σ) (c : Ref) (l : List Ref) (r : Lis
         exact collectM_mono f q' c' _ r h
 
 include hstep in
-theorem collectU_mono (key : Ref → UInt64) : ∀ (f : Nat) (q : σ) (c : Ref) (l : List Ref) (m : List UInt64)
-    (r : List Ref × List UInt64 × σ × Ref),
+theorem collectU_mono (key : Ref → String) : ∀ (f : Nat) (q : σ) (c : Ref) (l : List Ref) (m : List String)
+    (r : List Ref × List String × σ × Ref),
     collectU step key f q c l m = some r → collectU step' key (f+1) q c l m = some r
   | 0, _, _, _, _, _, h => by simp [collectU] at h
   | f+1, q, c, l, m, r, h => by
